@@ -3,6 +3,7 @@ package props
 import (
 	"encoding/hex"
 	"fmt"
+	"sync"
 
 	"github.com/0chain/common/core/util"
 	"golang.org/x/crypto/sha3"
@@ -231,6 +232,74 @@ func runC19(c *fw.Ctx) {
 			}
 		}
 	}
+	// a returned path belongs to the caller: editing or appending to it must not touch the tree
+	{
+		var z util.MerkleTree
+		z.ComputeTree(leaves)
+		for _, i := range []int{0, n - 1, c.Rng.Intn(n)} {
+			p := z.GetPathByIndex(i)
+			if p != nil && len(p.Nodes) > 0 {
+				p.Nodes = append(p.Nodes, "appended-by-the-caller")
+				p.Nodes[0] = "edited-by-the-caller"
+				p.Nodes = append(p.Nodes[:1], "x", "y")
+			}
+			pl := z.GetPath(leaves[i])
+			if pl != nil && len(pl.Nodes) > 0 {
+				pl.Nodes[len(pl.Nodes)-1] = "edited-by-the-caller"
+				pl.Nodes = append(pl.Nodes, "appended-by-the-caller")
+			}
+		}
+		if z.GetRoot() != root {
+			c.Violate("", "n=%d: editing a returned path changed the tree's root", n)
+		} else {
+			for _, i := range []int{0, n / 2, n - 1} {
+				p := z.GetPathByIndex(i)
+				if p == nil || !refVerify(ls[i], p.Nodes, i, root) {
+					c.Violate("", "n=%d: after the caller edited previously returned paths, path %d no longer verifies", n, i)
+					break
+				}
+				c.Count("paths_after_caller_edits", 1)
+			}
+		}
+	}
+	// independent trees computed concurrently give the same roots and paths as sequentially
+	if n%16 == 3 {
+		const G = 4
+		var wg sync.WaitGroup
+		bad := make([]string, G)
+		for gi := 0; gi < G; gi++ {
+			wg.Add(1)
+			go func(gi int) {
+				defer wg.Done()
+				for rep := 0; rep < 6; rep++ {
+					lv, lsx := leaves, ls
+					wantRoot := root
+					if (gi+rep)%2 == 1 {
+						lv, lsx, wantRoot = leavesB, lsB, rootB
+					}
+					var t util.MerkleTree
+					t.ComputeTree(lv)
+					if t.GetRoot() != wantRoot {
+						bad[gi] = "root of a tree computed concurrently with other, independent trees differs from the sequential root"
+						return
+					}
+					i := (gi*7 + rep) % n
+					if p := t.GetPathByIndex(i); p == nil || !util.VerifyMerklePath(lsx[i], p, wantRoot) {
+						bad[gi] = "path of a tree computed concurrently with other, independent trees does not verify"
+						return
+					}
+				}
+			}(gi)
+		}
+		wg.Wait()
+		for _, b := range bad {
+			if b != "" {
+				c.Violate("", "n=%d: %s", n, b)
+				break
+			}
+		}
+		c.Count("concurrent_independent_tree_groups", 1)
+	}
 	// export without copying, then re-use the exporter: the loaded tree must not change (no shared backing array);
 	// and a rejected SetTree must leave a populated object intact
 	{
@@ -288,12 +357,12 @@ func init() {
 		Level:        "exploration",
 		Rule: "one case per leaf count n=1..N (N=1024 quick, 4096 thorough) with distinct 64-hex leaf hashes derived from (seed,n,i); every leaf index i is exercised: " +
 			"path by index and by leaf lookup must verify against GetRoot() (library verifier and an independent one), root must equal an independent pairwise/duplicate-last reference, " +
-			"the same path must not verify for other leaves (all others for n<=64; neighbours, sibling, last leaves, 3 random and a one-nibble mutation above), export/import must reproduce root and paths; a different tree (rotated leaves plus one new leaf) is then loaded with SetTree / re-computed with ComputeTree into the objects that already served lookups and its by-leaf and by-index paths must prove the new leaves only; a tree loaded from GetTree() without copying must be unaffected by the exporter computing other trees, and by SetTree calls on itself that are rejected for a wrong size. " +
+			"the same path must not verify for other leaves (all others for n<=64; neighbours, sibling, last leaves, 3 random and a one-nibble mutation above), export/import must reproduce root and paths; a different tree (rotated leaves plus one new leaf) is then loaded with SetTree / re-computed with ComputeTree into the objects that already served lookups and its by-leaf and by-index paths must prove the new leaves only; returned paths are edited/appended to by the harness and the tree re-verified; every 16th size also computes independent trees in 4 concurrent goroutines and compares with the sequential roots; a tree loaded from GetTree() without copying must be unaffected by the exporter computing other trees, and by SetTree calls on itself that are rejected for a wrong size. " +
 			"distinct non-trivial = distinct (n,i) pairs whose path was produced and verified",
 		Cases:      c19Sizes,
 		Run:        runC19,
 		Exhaustive: func(string) bool { return true },
-		Floors:     map[string]int64{"trees": 1000, "paths_verified": 500000, "other_leaf_rejections": 3000000, "settree_wrong_size_rejected": 1000, "reused_object_paths": 5000, "loaded_tree_paths_after_exporter_reuse": 3000},
+		Floors:     map[string]int64{"trees": 1000, "paths_verified": 500000, "other_leaf_rejections": 3000000, "settree_wrong_size_rejected": 1000, "reused_object_paths": 5000, "loaded_tree_paths_after_exporter_reuse": 3000, "paths_after_caller_edits": 3000, "concurrent_independent_tree_groups": 60},
 		Assumptions: []string{
 			"leaf hashes are distinct fixed-length (64 hex) strings: the tree concatenates strings, variable-length leaves are outside the property's domain",
 			"exhaustive over n<=N and all indices, not over all leaf values",
